@@ -1110,7 +1110,7 @@ fn random_cells(bs: &[B], rng: &mut Rng, n_str: usize, n_num: usize, n_range: us
         }
         if name == "round" {
             if rng.chance(1, 2) {
-                kw.push(("method", Value::from(*rng.pick(&["ceil", "floor"]))));
+                kw.push(("method", Value::from(*rng.pick(&["ceil", "floor", "ceil", "floor", "nearest"]))));
             }
             if rng.chance(1, 3) {
                 kw.push(("precision", Value::from(if rng.chance(1, 3) { *rng.pick(&[-400i64, -309, -308, -307, -300, -20, 15, 22, 23, 300, 307, 308, 309, 400, i32::MAX as i64, i32::MIN as i64]) } else { rng.range(-6, 6) })));
